@@ -393,6 +393,24 @@ def r07d(P, R):
                     else:
                         R.holds("R07-d", key, "excludes the whole word only")
     R.floor("R07-d", "word look-aheads in front of names", seen_guard, 4)
+    # a greedy repetition whose items can begin with an arbitrary name swallows any keyword that may legitimately come right after it
+    # (PEG never backtracks into a repetition): every keyword in the FOLLOW set of the repetition must be excluded by a look-ahead of
+    # the item — `(!from ~ Name)+ ~ from`, a name list at the end of a definition vs. the keyword that starts the next definition
+    nrep = 0
+    for rn, node, fw in g.repetition_follows():
+        if node[0] not in ("star", "plus") or not fw:
+            continue
+        guards = g.name_start_guards(node[1])
+        if not guards:
+            continue
+        nrep += 1
+        missing = sorted(set().union(*[fw - k for k in guards]))
+        R.check("R07-d", "name-repetition-follow:%s#%d" % (rn, sum(1 for _ in [x for x in _walk(body(rn)) if x is node]) and nrep), not missing,
+                "the names repeated in %s stop before %s" % (rn, sorted(fw)),
+                "the repetition of names in %s can be followed by the keyword(s) %s, which its items do not exclude: the keyword is consumed as one "
+                "more name, so a valid text in which it follows (e.g. the next definition starting with it) is rejected or absorbed into this "
+                "construct" % (rn, missing))
+    R.floor("R07-d", "name repetitions followed by a keyword", nrep, 1)
     # directive locations
     ex = g.text_lang("ExecutableDirectiveLocation")
     ty = g.text_lang("TypeSystemDirectiveLocation")
